@@ -164,7 +164,8 @@ Lemma scanformat_eq rest form conv rest' flags prec :
   lua_getformat rest = LVal (form, conv, rest') -> lua_checkformat NL_MAXFLAGS form flags prec = true ->
   (forall c, flags c = true -> isflagF c = true) ->
   nl_scanformat rest = Val (form, conv, rest') /\ c_isalpha conv = true /\
-  exists fl wp, form = 37 :: fl ++ wp ++ [conv] /\ scan flags prec true (fl ++ wp) = (fl, wp, []) /\ slen fl <= NL_MAXFLAGS.
+  exists fl wp, form = 37 :: fl ++ wp ++ [conv] /\ scan flags prec true (fl ++ wp) = (fl, wp, []) /\ slen fl <= NL_MAXFLAGS /\
+    scan flags prec true (tl form) = (fl, wp, [conv]).
 Proof.
   unfold lua_getformat. destruct (span spanset rest) as [sp r] eqn:Es.
   destruct (22 <=? slen sp + 1); [discriminate|]. intros E. inversion E. subst form conv rest'. clear E.
@@ -193,8 +194,8 @@ Proof.
   destruct (Z.ltb_spec NL_MAXFLAGS (slen fl)); [lia|]. rewrite Hnd.
   split; [|split; [exact Hrem|]].
   - rewrite Esp. rewrite <- app_assoc. reflexivity.
-  - exists fl, wp. rewrite Esp. rewrite <- app_assoc. split; [reflexivity|]. split; [|exact Hcap].
-    rewrite <- Esp. exact Esp0.
+  - exists fl, wp. split; [rewrite Esp; rewrite <- app_assoc; reflexivity|]. split; [rewrite <- Esp; exact Esp0|].
+    split; [exact Hcap|]. reflexivity.
 Qed.
 
 (* ------------------------------------------------------------------ a long string under a modified %s *)
@@ -261,6 +262,25 @@ Proof.
 Qed.
 End FmtProofs.
 
+Lemma digits_fuel_nonzero fuel : forall n acc, forallb (fun c => 1 <=? c) acc = true ->
+  forallb (fun c => 1 <=? c) (digits_fuel fuel 10 false n acc) = true.
+Proof.
+  induction fuel as [|f IH]; intros n acc Ha; cbn [digits_fuel]; [exact Ha|].
+  destruct (n <=? 0); [exact Ha|]. apply IH. cbn [forallb]. rewrite Ha, andb_true_r.
+  unfold digit_char. pose proof (Z.mod_pos_bound n 10 ltac:(lia)). destruct (n mod 10 <? 10); lia.
+Qed.
+
+Lemma has_zero_decimal v : has_zero (decimal_of v) = false.
+Proof.
+  assert (H : forallb (fun c => 1 <=? c) (decimal_of v) = true).
+  { unfold decimal_of. rewrite forallb_app. apply andb_true_iff. split; [destruct (v <? 0); reflexivity|].
+    pose proof (digits_fuel_nonzero 64 (Z.abs v) [] eq_refl) as D. unfold digits.
+    destruct (digits_fuel 64 10 false (Z.abs v) []); [reflexivity|exact D]. }
+  unfold has_zero, mem. destruct (existsb (Z.eqb 0) (decimal_of v)) eqn:E; [|reflexivity].
+  apply existsb_exists in E. destruct E as (x & Hx & E0). apply Z.eqb_eq in E0. subst x.
+  rewrite forallb_forall in H. specialize (H 0 Hx). discriminate H.
+Qed.
+
 Lemma getformat_shape rest form conv rest' : lua_getformat rest = LVal (form, conv, rest') ->
   exists sp, form = 37 :: sp ++ [conv].
 Proof.
@@ -293,12 +313,17 @@ Proof.
   unfold lua_item. destruct (lua_getformat rest) as [[[form conv] rest']|] eqn:G; [|discriminate].
   destruct flags_sub_F as (SC & SI & SU & SX).
   assert (SF : forall c, isflagF c = true -> isflagF c = true) by (intros c H; exact H).
+  Ltac pass_check Hx :=
+    let fl := fresh "fl" in let wp := fresh "wp" in let Ef := fresh "Ef" in let Es := fresh "Es" in
+    let Hc := fresh "Hc" in let Et := fresh "Et" in
+    pose proof Hx as (fl & wp & Ef & Es & Hc & Et); unfold nl_checkformat; fmt_red; rewrite Et; cbn [hd0 Z.eqb Pos.eqb negb];
+    clear fl wp Ef Es Hc Et.
   Ltac with_check G Sub :=
     match goal with
     | |- (if lua_checkformat ?cap ?form ?fl ?pr then _ else _) = _ -> _ =>
         let C := fresh "C" in destruct (lua_checkformat cap form fl pr) eqn:C; [|discriminate];
         let S := fresh "S" in let Ha := fresh "Ha" in let Hx := fresh "Hx" in
-        destruct (scanformat_eq _ _ _ _ _ _ G C Sub) as (S & Ha & Hx); unfold nl_item; rewrite S
+        destruct (scanformat_eq _ _ _ _ _ _ G C Sub) as (S & Ha & Hx); unfold nl_item; rewrite S; pass_check Hx
     end.
   destruct a as [v|s].
   - destruct (Z.eqb_spec conv 99) as [->|N1]. { fmt_red. with_check G SC. fmt_red. same_call. }
@@ -319,9 +344,9 @@ Proof.
     { fmt_red. cbv zeta. pose proof (getformat_shape _ _ _ _ G) as Sh.
       destruct (Nat.eqb (length form) 2) eqn:L2.
       - pose proof (check_plain_s form Sh L2) as C.
-        destruct (scanformat_eq _ _ _ _ _ _ G C SC) as (S & _ & _). unfold nl_item. rewrite S. fmt_red. rewrite L2.
+        destruct (scanformat_eq _ _ _ _ _ _ G C SC) as (S & _ & Hx). unfold nl_item. rewrite S. pass_check Hx. fmt_red. rewrite L2.
         intros HH; inversion HH; reflexivity.
-      - with_check G SC. fmt_red. rewrite L2. same_call. }
+      - with_check G SC. fmt_red. rewrite L2, has_zero_decimal. same_call. }
     unfold is_intconv, is_fltconv.
     repeat match goal with |- context [conv =? ?K] => replace (conv =? K) with false by (symmetry; apply Z.eqb_neq; assumption) end.
     cbn [orb andb negb]. discriminate.
@@ -329,14 +354,14 @@ Proof.
     pose proof (getformat_shape _ _ _ _ G) as Sh.
     destruct (Nat.eqb (length form) 2) eqn:L2.
     + pose proof (check_plain_s form Sh L2) as C.
-      destruct (scanformat_eq _ _ _ _ _ _ G C SC) as (S & _ & _). unfold nl_item. rewrite S. fmt_red. rewrite L2.
+      destruct (scanformat_eq _ _ _ _ _ _ G C SC) as (S & _ & Hx). unfold nl_item. rewrite S. pass_check Hx. fmt_red. rewrite L2.
       intros HH; inversion HH; reflexivity.
     + destruct (has_zero s) eqn:Hz; [discriminate|].
-      with_check G SC. fmt_red. rewrite L2.
+      with_check G SC. fmt_red. rewrite L2, Hz.
       destruct (negb (mem 46 form) && (100 <=? slen s)) eqn:Long; [|same_call].
       intros HH. inversion HH. subst out r'. clear HH.
       apply andb_true_iff in Long. destruct Long as [Hdot Hlen]. apply negb_true_iff in Hdot. apply Z.leb_le in Hlen.
-      destruct Hx as (fl & wp & Ef & Esc & _). subst form.
+      destruct Hx as (fl & wp & Ef & Esc & _ & _). subst form.
       assert (Hdw : mem 46 wp = false).
       { change (37 :: fl ++ wp ++ [115]) with ([37] ++ fl ++ wp ++ [115]) in Hdot. rewrite !mem_app in Hdot.
         apply orb_false_iff in Hdot. destruct Hdot as [_ Hdot]. apply orb_false_iff in Hdot. destruct Hdot as [_ Hdot].
@@ -420,9 +445,193 @@ Proof.
       rewrite (IH _ _ _ E). exact (fun h => h).
 Qed.
 
-(* the port hands snprintf specifications whose behaviour ISO C leaves undefined *)
-Lemma format_unsafe_witness : nl_format cfloat [37; 35; 100] [AInt 5] = Unsafe.
-Proof. vm_compute. reflexivity. Qed.
+(* ------------------------------------------------------------------ the converse: the port never fabricates *)
+Lemma span_stops P s a b : span P s = (a, b) -> stops P b.
+Proof.
+  revert a b. induction s as [|c r IH]; cbn [span]; intros a b E.
+  - inversion E. exact I.
+  - destruct (P c) eqn:Ec.
+    + destruct (span P r) as [a0 b0] eqn:Er. inversion E. subst. eapply IH. reflexivity.
+    + inversion E. subst. cbn. exact Ec.
+Qed.
+
+Lemma take2_digits s w r : take2 s = (w, r) -> forallb c_isdigit w = true /\ (length w <= 2)%nat.
+Proof.
+  unfold take2. destruct s as [|c s']; [intros E; inversion E; split; [reflexivity|cbn; lia]|].
+  destruct (c_isdigit c) eqn:Ec; [|intros E; inversion E; split; [reflexivity|cbn; lia]].
+  destruct s' as [|d s'']; [intros E; inversion E; cbn; rewrite Ec; split; [reflexivity|lia]|].
+  destruct (c_isdigit d) eqn:Ed; intros E; inversion E; cbn; rewrite Ec; try rewrite Ed; split; try reflexivity; lia.
+Qed.
+
+Lemma digit_spanset c : c_isdigit c = true -> spanset c = true.
+Proof. unfold c_isdigit, spanset, isflagF, between. lia. Qed.
+
+(* the shape of what [scan] returns *)
+Lemma scan_shape al pr c0 s fl wp rem : scan al pr c0 s = (fl, wp, rem) ->
+  span al s = (fl, wp ++ rem) /\ forallb spanset wp = true /\ (length wp <= 5)%nat.
+Proof.
+  unfold scan. destruct (span al s) as [f s1] eqn:E1.
+  destruct (c0 && (hd0 s1 =? 48)); [intros E; inversion E; subst; split; [reflexivity|split; [reflexivity|cbn; lia]]|].
+  destruct (take2 s1) as [w s2] eqn:E2. pose proof (take2_app _ _ _ E2) as Ea. destruct (take2_digits _ _ _ E2) as [Hd Hl].
+  assert (Hw : forallb spanset w = true).
+  { rewrite forallb_forall in Hd |- *. intros x Hx. apply digit_spanset. apply Hd. exact Hx. }
+  destruct s2 as [|c s3].
+  { intros E; inversion E; subst. rewrite app_nil_r. split; [reflexivity|split; [exact Hw|lia]]. }
+  destruct (Z.eqb_spec c 46) as [->|N]; cbn [andb].
+  2:{ intros E; inversion E; subst. split; [reflexivity|split; [exact Hw|lia]]. }
+  destruct pr.
+  2:{ intros E; inversion E; subst. split; [reflexivity|split; [exact Hw|lia]]. }
+  destruct (take2 s3) as [p s4] eqn:E3. pose proof (take2_app _ _ _ E3) as Ea3. destruct (take2_digits _ _ _ E3) as [Hd3 Hl3].
+  intros E; inversion E; subst. split; [rewrite <- !app_assoc; reflexivity|].
+  split.
+  - rewrite forallb_app, Hw. cbn [forallb andb]. change (spanset 46) with true. cbn [andb].
+    rewrite forallb_forall in Hd3 |- *. intros x Hx. apply digit_spanset. apply Hd3. exact Hx.
+  - rewrite app_length. cbn [length]. lia.
+Qed.
+
+Lemma span_prefix_len (P Q : Z -> bool) s : (forall c, P c = true -> Q c = true) ->
+  (length (fst (span P s)) <= length (fst (span Q s)))%nat.
+Proof.
+  intros Hsub. induction s as [|c r IH]; cbn [span]; [cbn; lia|].
+  destruct (P c) eqn:Ep.
+  - rewrite (Hsub c Ep). destruct (span P r) as [a b]. destruct (span Q r) as [a' b']. cbn in *. lia.
+  - cbn. lia.
+Qed.
+
+Lemma flagF_spanset c : isflagF c = true -> spanset c = true.
+Proof. unfold spanset. intros ->. reflexivity. Qed.
+
+(* what scanformat accepts, getformat reads the same way *)
+Lemma getformat_of_scanformat rest form conv rest' : nl_scanformat rest = Val (form, conv, rest') ->
+  c_isalpha conv = true ->
+  lua_getformat rest = LVal (form, conv, rest') /\
+  exists fl wp, form = 37 :: fl ++ wp ++ [conv] /\ span isflagF (fl ++ wp ++ [conv]) = (fl, wp ++ [conv]) /\ slen fl <= NL_MAXFLAGS.
+Proof.
+  unfold nl_scanformat. destruct (scan isflagF true false rest) as [[fl wp] rem] eqn:E.
+  destruct (Z.ltb_spec NL_MAXFLAGS (slen fl)) as [|Hfl]; [discriminate|].
+  destruct (c_isdigit (hd0 rem)); [discriminate|]. intros H Ha. inversion H. subst form conv rest'. clear H.
+  destruct rem as [|c rest']; [discriminate Ha|]. cbn [hd0 tl] in *.
+  pose proof (scan_app _ _ _ _ _ _ _ E) as Er. pose proof (scan_flags _ _ _ _ _ _ _ E) as HflF.
+  destruct (scan_shape _ _ _ _ _ _ _ E) as (Hsp & Hwp & Hlen).
+  destruct (alpha_not_spanset c Ha) as (Hns & HnF & _ & _).
+  assert (Hall : forallb spanset (fl ++ wp) = true).
+  { rewrite forallb_app, Hwp, andb_true_r. rewrite forallb_forall in HflF |- *. intros x Hx. apply flagF_spanset. apply HflF. exact Hx. }
+  unfold lua_getformat. rewrite Er. rewrite app_assoc.
+  rewrite (span_unique spanset (fl ++ wp) (c :: rest') Hall Hns).
+  assert (Hl : slen (fl ++ wp) + 1 < 22).
+  { unfold slen in *. rewrite app_length. unfold NL_MAXFLAGS in Hfl. lia. }
+  destruct (Z.leb_spec 22 (slen (fl ++ wp) + 1)); [lia|]. cbn [hd0 tl]. rewrite <- app_assoc.
+  split; [reflexivity|]. exists fl, wp. split; [reflexivity|]. split; [|exact Hfl].
+  apply span_unique; [exact HflF|].
+  pose proof (span_stops _ _ _ _ Hsp) as Hst. destruct wp as [|x wp']; [cbn; exact HnF|exact Hst].
+Qed.
+
+(* what checkformat accepts with the flags of a conversion, Lua's checkformat accepts with the same flags *)
+Lemma lua_check_of_nl cap form conv flags prec fl wp : NL_MAXFLAGS <= cap -> c_isalpha conv = true ->
+  form = 37 :: fl ++ wp ++ [conv] -> span isflagF (fl ++ wp ++ [conv]) = (fl, wp ++ [conv]) -> slen fl <= NL_MAXFLAGS ->
+  (forall c, flags c = true -> isflagF c = true) ->
+  (let '(_, _, rem) := scan flags prec true (tl form) in hd0 rem =? conv) = true ->
+  lua_checkformat cap form flags prec = true.
+Proof.
+  intros Hcap Ha Ef Hsp Hfl Hsub. unfold lua_checkformat. subst form. cbn [tl].
+  destruct (scan flags prec true (fl ++ wp ++ [conv])) as [[fl' wp'] rem] eqn:E. intros Hh. apply Z.eqb_eq in Hh.
+  destruct (scan_shape _ _ _ _ _ _ _ E) as (Hs' & _ & _).
+  pose proof (span_prefix_len flags isflagF (fl ++ wp ++ [conv]) Hsub) as Hlen. rewrite Hs', Hsp in Hlen. cbn [fst] in Hlen.
+  destruct rem as [|c t]; [cbn in Hh; subst conv; discriminate Ha|]. cbn [hd0] in Hh. subst c. rewrite Ha, andb_true_r.
+  apply Z.leb_le. unfold slen in *. lia.
+Qed.
+
+Lemma item_conv cap pq rest a out r' : NL_MAXFLAGS <= cap ->
+  nl_item cfloat rest a = Val (out, r') -> lua_item cfloat cap pq rest a = LVal (out, r').
+Proof.
+  intros Hcap. unfold nl_item. destruct (nl_scanformat rest) as [[[form conv] rest']| |] eqn:S; try discriminate.
+  destruct (nl_checkformat form conv) eqn:K; cbn [negb]; [|discriminate].
+  destruct flags_sub_F as (SC & SI & SU & SX).
+  assert (SF : forall c, isflagF c = true -> isflagF c = true) by (intros c H; exact H).
+  (* with a concrete alphabetic conversion: Lua reads the same specification and accepts it *)
+  Ltac lua_side S K Hcap Sub :=
+    match type of S with nl_scanformat _ = Val (_, ?c, _) =>
+      let G := fresh "G" in let fl := fresh "fl" in let wp := fresh "wp" in
+      let Ef := fresh "Ef" in let Hsp := fresh "Hsp" in let Hfl := fresh "Hfl" in
+      destruct (getformat_of_scanformat _ _ _ _ S eq_refl) as (G & fl & wp & Ef & Hsp & Hfl);
+      unfold lua_item; rewrite G; fmt_red;
+      unfold nl_checkformat in K; revert K; fmt_red; intros K;
+      rewrite (lua_check_of_nl _ _ c _ _ fl wp Hcap eq_refl Ef Hsp Hfl Sub K)
+    end.
+  Ltac same_out :=
+    match goal with
+    | |- (match ?o with Some b => Val (b, ?r) | None => Unsafe end) = _ -> _ =>
+        destruct o; [intros HH; inversion HH; subst; reflexivity|discriminate]
+    end.
+  destruct a as [v|s].
+  - destruct (Z.eqb_spec conv 99) as [->|N1]. { fmt_red. lua_side S K Hcap SC. same_out. }
+    destruct (Z.eqb_spec conv 100) as [->|N2]. { fmt_red. lua_side S K Hcap SI. same_out. }
+    destruct (Z.eqb_spec conv 105) as [->|N3]. { fmt_red. lua_side S K Hcap SI. same_out. }
+    destruct (Z.eqb_spec conv 111) as [->|N5]. { fmt_red. lua_side S K Hcap SX. same_out. }
+    destruct (Z.eqb_spec conv 117) as [->|N4]. { fmt_red. lua_side S K Hcap SU. same_out. }
+    destruct (Z.eqb_spec conv 120) as [->|N6]. { fmt_red. lua_side S K Hcap SX. same_out. }
+    destruct (Z.eqb_spec conv 88) as [->|N7]. { fmt_red. lua_side S K Hcap SX. same_out. }
+    destruct (Z.eqb_spec conv 97) as [->|N8]. { fmt_red. lua_side S K Hcap SF. same_out. }
+    destruct (Z.eqb_spec conv 65) as [->|N9]. { fmt_red. lua_side S K Hcap SF. same_out. }
+    destruct (Z.eqb_spec conv 102) as [->|N10]. { fmt_red. lua_side S K Hcap SF. same_out. }
+    destruct (Z.eqb_spec conv 101) as [->|N11]. { fmt_red. lua_side S K Hcap SF. same_out. }
+    destruct (Z.eqb_spec conv 69) as [->|N12]. { fmt_red. lua_side S K Hcap SF. same_out. }
+    destruct (Z.eqb_spec conv 103) as [->|N13]. { fmt_red. lua_side S K Hcap SF. same_out. }
+    destruct (Z.eqb_spec conv 71) as [->|N14]. { fmt_red. lua_side S K Hcap SF. same_out. }
+    destruct (Z.eqb_spec conv 115) as [->|N15].
+    { fmt_red. destruct (Nat.eqb (length form) 2) eqn:L2.
+      - destruct (getformat_of_scanformat _ _ _ _ S eq_refl) as (G & _). unfold lua_item. rewrite G. fmt_red. cbv zeta. rewrite L2.
+        intros HH; inversion HH; reflexivity.
+      - rewrite has_zero_decimal. lua_side S K Hcap SC. cbv zeta. rewrite L2. same_out. }
+    unfold is_fltconv.
+    repeat match goal with |- context [conv =? ?K] => replace (conv =? K) with false by (symmetry; apply Z.eqb_neq; assumption) end.
+    cbn [orb andb negb]. discriminate.
+  - destruct (Z.eqb_spec conv 115) as [->|N]; [|discriminate].
+    destruct (Nat.eqb (length form) 2) eqn:L2.
+    + destruct (getformat_of_scanformat _ _ _ _ S eq_refl) as (G & _). unfold lua_item. rewrite G. fmt_red. rewrite L2.
+      intros HH; inversion HH; reflexivity.
+    + destruct (has_zero s) eqn:Hz; [discriminate|].
+      lua_side S K Hcap SC. rewrite L2, Hz.
+      destruct (negb (mem 46 form) && (100 <=? slen s)) eqn:Long; [|same_out].
+      (* Lua keeps the whole string; the port formats it: the same bytes *)
+      apply andb_true_iff in Long. destruct Long as [Hdot Hlen]. apply negb_true_iff in Hdot. apply Z.leb_le in Hlen.
+      assert (C : lua_checkformat NL_MAXFLAGS form isflagC true = true)
+        by exact (lua_check_of_nl _ _ 115 _ _ fl wp (Z.le_refl _) eq_refl Ef Hsp Hfl SC K).
+      destruct (scanformat_eq _ _ _ _ _ _ G C SC) as (_ & _ & fl2 & wp2 & Ef2 & Esc2 & _ & _).
+      assert (Hdw : mem 46 wp2 = false).
+      { rewrite Ef2 in Hdot. change (37 :: fl2 ++ wp2 ++ [115]) with ([37] ++ fl2 ++ wp2 ++ [115]) in Hdot. rewrite !mem_app in Hdot.
+        apply orb_false_iff in Hdot. destruct Hdot as [_ Hdot]. apply orb_false_iff in Hdot. destruct Hdot as [_ Hdot].
+        apply orb_false_iff in Hdot. tauto. }
+      rewrite Ef2. rewrite (c99_s_long cfloat fl2 wp2 s Esc2 Hdw Hz Hlen). intros HH. inversion HH. reflexivity.
+Qed.
+
+Theorem format_loop_conv cap pq : NL_MAXFLAGS <= cap -> forall k fmt args out,
+  nl_format_loop cfloat k fmt args = Val out -> lua_format_loop cfloat cap pq k fmt args = LVal out.
+Proof.
+  intros Hcap. induction k as [|k IH]; intros fmt args out; [discriminate|].
+  cbn [lua_format_loop nl_format_loop]. destruct fmt as [|c r]; [intros H; inversion H; reflexivity|].
+  destruct (negb (c =? 37)).
+  - destruct (nl_format_loop cfloat k r args) as [o| |] eqn:E; try discriminate.
+    intros H. inversion H. rewrite (IH _ _ _ E). reflexivity.
+  - destruct (hd0 r =? 37).
+    + destruct (nl_format_loop cfloat k (tl r) args) as [o| |] eqn:E; try discriminate.
+      intros H. inversion H. rewrite (IH _ _ _ E). reflexivity.
+    + destruct (nl_scanformat r) as [x| |]; try discriminate.
+      destruct args as [|a args']; [discriminate|].
+      destruct (nl_item cfloat r a) as [[o1 r1]| |] eqn:Ei; try discriminate.
+      rewrite (item_conv cap pq _ _ _ _ Hcap Ei).
+      destruct (nl_format_loop cfloat k r1 args') as [o| |] eqn:E; try discriminate.
+      intros H. inversion H. rewrite (IH _ _ _ E). reflexivity.
+Qed.
+
+(* whatever string.format returns is what Lua's str_format returns: it never fabricates a value *)
+Theorem format_val_is_lua fmt args out : nl_format cfloat fmt args = Val out -> lua_format cfloat fmt args = LVal out.
+Proof. apply format_loop_conv. unfold NL_MAXFLAGS. lia. Qed.
+
+(* and it returns exactly where Lua restricted to the port's documented limits returns *)
+Theorem format_iff_restricted_lua fmt args out :
+  nl_format cfloat fmt args = Val out <-> lua_format_cap cfloat NL_MAXFLAGS false fmt args = LVal out.
+Proof. split; [apply format_loop_conv; lia|apply format_eq_lua]. Qed.
 End FmtMain.
 
 (* ------------------------------------------------------------------ the C model, sanity *)
